@@ -19,6 +19,9 @@ for d in sorted(S.iterdir()):
         m = re.search(r"demo unchanged=(\d+) changed=(\d+)", ver.read_text())
         if m:
             demo_u, demo_c = int(m.group(1)), int(m.group(2))
+    if demo_u is None and (d / "demo_unchanged.log").exists() and (d / "demo_changed.log").exists():
+        # exit codes are not stored in the logs; the verify step printed them - fall back to "see logs"
+        demo_u, demo_c = "see demo_unchanged.log", "see demo_changed.log"
     detect = {}
     for f in sorted(d.glob("detect_*.log")):
         txt = f.read_text()
@@ -37,7 +40,7 @@ for d in sorted(S.iterdir()):
             "how": "harness/mutant.sh verify <id>: scratch worktree of /repo HEAD + patch; demo.py on /repo and on the worktree; full pinned pytest command on the worktree compared with BASELINE.json stable_pass",
         },
         "detection": detect,
-        "how_detected": "harness/mutant.sh detect <id> <property>: git -C /repo apply patch.diff ; ./check <property> --tier quick ; git -C /repo checkout -- .",
+        "how_detected": "harness/mutant.sh detect <id> <property>: scratch worktree of /repo HEAD + patch, VERIF_REPO=<worktree> ./check <property> --tier quick (INPLACE=1: git -C /repo apply patch.diff ; ./check ; git -C /repo checkout -- .); harness/mutant_all.sh re-detects all of them",
     }
     (d / "meta.json").write_text(json.dumps(meta, indent=1))
     best = [k for k, v in detect.items() if v["violations"] > 0]
